@@ -350,6 +350,41 @@ def gen_exit(rng):
     return prog
 
 
+def gen_abandon(rng):
+    """a FOR loop that is abandoned from inside its body (RETURN from the subroutine it is in, or GOTO out of it
+    inside a WHILE) and then executed again with another end / step: a stale record for the same NEXT stays
+    on the FOR stack, and NEXT must use the most recent one"""
+    ends = rng.sample([1, 2, 3, 4, 5, 6], 3)
+    steps = [1, 1, 1] if rng.random() < 0.5 else [rng.choice([1, 2, 3]) for _ in range(3)]
+    named = rng.choice([[4], []])
+    quit_on = rng.choice([0, 0, 1])             # which execution of the loop is abandoned (by count in C%)
+    at = rng.choice([1, 1, 2])                  # at which counter value
+    body = [['P', V(4)]]
+    if rng.random() < 0.4:
+        body.append(['P', ['+', V(0), V(4)]])
+    if rng.random() < 0.6:
+        # subroutine called several times
+        calls = []
+        for e, st in zip(ends, steps):
+            calls += [['=', 0, e], ['=', 3, st], ['GS', 500]]
+            if rng.random() < 0.3:
+                calls.append(['P', 77])
+        prog = [['L', 10]] + calls + [['END']]
+        prog += [['L', 500], ['F', 4, 1, V(0), V(3)]] + body
+        prog += [['IF', ['=', V(2), quit_on], None], ['IF', ['=', V(4), at], None],
+                 ['=', 2, ['+', V(2), 1]], ['R', None]]
+        prog += [['L', 510], ['N', named], ['=', 2, ['+', V(2), 1]], ['R', None]]
+        return prog
+    # loop inside a WHILE, left by GOTO to the WEND
+    prog = [['L', 10], ['=', 1, 0], ['W', ['<', V(1), 3]], ['=', 1, ['+', V(1), 1]]]
+    prog += [['=', 0, ['+', ends[0], V(1)]] if rng.random() < 0.5 else ['=', 0, ['-', 6, V(1)]],
+             ['=', 3, rng.choice([1, 1, 2])]]
+    prog += [['L', 20], ['F', 4, 1, V(0), V(3)]] + body + [['IF', ['=', V(1), quit_on + 1], 40]]
+    prog += [['L', 30], ['N', named], ['P', 55]]
+    prog += [['L', 40], ['D'], ['P', 99]]
+    return prog
+
+
 def gen_flat(rng, long_rate=0.02):
     for _ in range(60):
         r = rng.random()
@@ -357,9 +392,13 @@ def gen_flat(rng, long_rate=0.02):
             prog = gen_struct(rng)['prog']
             for _ in range(rng.choice([1, 1, 2, 3])):
                 prog = mutate(rng, prog)
-        elif r < 0.8:
+        elif r < 0.72:
             prog = gen_exit(rng)
             if rng.random() < 0.3:
+                prog = mutate(rng, prog)
+        elif r < 0.84:
+            prog = gen_abandon(rng)
+            if rng.random() < 0.2:
                 prog = mutate(rng, prog)
         else:
             prog = gen_soup(rng)
